@@ -92,6 +92,12 @@ func drawXZCase(t *rapid.T) caseXZ {
 			c.Data = gen.Recipe{txt(), rnd(66000, 70000), txt(), rnd(66000, 70000), txt()}
 		case 2:
 			c.Data = gen.Recipe{rnd(1, 3000), txt(), rnd(1, 3000), txt()}
+		case 3:
+			// highly compressible data beyond 1 MiB / 2 MiB: compressed chunks whose
+			// uncompressed size needs the high bits of the control byte
+			if c.Cfg.Matcher == 0 {
+				c.Data = gen.Recipe{txt(), {Kind: "run", B: rapid.Byte().Draw(t, "runbyte"), Len: rapid.IntRange(1100000, 2300000).Draw(t, "runlen")}, txt()}
+			}
 		}
 	}
 	if ev.Thorough() && c.Cfg.DictCap == 0 && rapid.IntRange(0, 3).Draw(t, "wrapdefault") == 0 {
